@@ -78,6 +78,7 @@ pub fn start(config: Config) -> Result<Tracker, String> {
         // all socket workers must have bound their listeners: give the slower ones a moment
         if ok {
             std::thread::sleep(Duration::from_millis(150));
+            LIVE_SWARM_WORKERS.fetch_add(t.config.swarm_workers, std::sync::atomic::Ordering::SeqCst);
             return Ok(t);
         }
         if t0.elapsed() > Duration::from_secs(20) {
@@ -321,11 +322,30 @@ pub fn counter(name: &str) -> u64 {
     aquatic_common::verif::counter(name)
 }
 
-pub fn wait_cleans(n: u64, swarm_workers: usize) -> bool {
-    let start = counter("http.clean_done");
-    let need = n * swarm_workers as u64;
-    vcore::net::wait_until(6_000 + 1_500 * n, || counter("http.clean_done") >= start + need)
+pub fn wait_cleans(n: u64, _swarm_workers: usize) -> bool {
+    wait_all_threads("http.clean_done", n, LIVE_SWARM_WORKERS.load(std::sync::atomic::Ordering::SeqCst), 60_000)
 }
+
+pub fn wait_time_refreshed() -> bool {
+    wait_all_threads("http.time_refreshed", 2, LIVE_SWARM_WORKERS.load(std::sync::atomic::Ordering::SeqCst), 60_000)
+}
+
+/// Wait until at least `threads` worker threads have each passed the per-thread hook `name` at least `n` times after
+/// now (a global count could be produced by one busy worker while another is starved). Wall-clock bound only as a
+/// watchdog: a false return is "inconclusive", never a verdict.
+pub fn wait_all_threads(name: &str, n: u64, threads: usize, timeout_ms: u64) -> bool {
+    let prefix = format!("{}@", name);
+    let snap = || -> std::collections::BTreeMap<String, u64> { aquatic_common::verif::counters().into_iter().filter(|(k, _)| k.starts_with(&prefix)).collect() };
+    let start = snap();
+    vcore::net::wait_until(timeout_ms, || {
+        let now = snap();
+        now.iter().filter(|(k, v)| **v >= start.get(*k).copied().unwrap_or(0) + n).count() >= threads
+    })
+}
+
+/// swarm worker threads alive in this process (trackers never stop once started)
+pub static LIVE_SWARM_WORKERS: std::sync::atomic::AtomicUsize = std::sync::atomic::AtomicUsize::new(0);
+
 
 pub fn distinct_first_n(hashes: &[[u8; 20]], n: usize) -> BTreeSet<[u8; 20]> {
     hashes.iter().take(n).copied().collect()
